@@ -95,6 +95,17 @@ for z in (0.0, 0.25):                 # initial state given as a bare scalar / o
         chk("brownian init_state=%r" % (st,), ps.generate_brownian(3, 4, init_state=st, dt=0.02, dtype=torch.float64), 3, 4, (z,))
         chk("vasicek init_state=%r" % (st,), ps.generate_vasicek(3, 4, init_state=st, dt=0.02, dtype=torch.float64), 3, 4, (z,))
         chk("cir init_state=%r" % (st,), ps.generate_cir(3, 4, init_state=st, dt=0.02, dtype=torch.float64), 3, 4, (z,), nonneg=True)
+# local volatility that depends on time only (a 0-dim / scalar sigma), several paths: both series are (n_paths, n_steps)
+for sig in (lambda tt, s_: 0.2 + 0.1 * tt, lambda tt, s_: torch.as_tensor(0.25), lambda tt, s_: 0.2):
+    o = ps.generate_local_volatility_process(3, 5, sig, init_state=(2.5,), dt=0.02, dtype=torch.float64)
+    for k_, x_ in enumerate(o):
+        if tuple(x_.shape) != (3, 5): bad.append(("localvol, time-only sigma_fn", "series %d has shape %s" % (k_, tuple(x_.shape))))
+# long horizons (beyond a thousand steps): shape, first column, finiteness, sign
+for (gname, fn, first, pos) in (("rough_bergomi", lambda: tuple(ps.generate_rough_bergomi(2, 1100, init_state=(2.5, 0.09), dt=0.001, dtype=torch.float64)), (2.5, 0.09), True),
+                               ("heston", lambda: tuple(ps.generate_heston(2, 1100, init_state=(2.5, 0.09), dt=0.001, dtype=torch.float64)), (2.5, 0.09), True),
+                               ("cir", lambda: ps.generate_cir(2, 1100, init_state=(0.09,), dt=0.001, dtype=torch.float64), (0.09,), False),
+                               ("kou", lambda: ps.generate_kou_jump(2, 1100, init_state=(2.5,), dt=0.001, dtype=torch.float64), (2.5,), True)):
+    chk(gname + " (1100 steps)", fn(), 2, 1100, first, positive=pos, nonneg=not pos, dtype=torch.float64)
 # requested dtype honoured for every floating dtype under both global defaults (values are not compared here)
 gens = {"brownian": lambda **k: ps.generate_brownian(3, 4, **k), "gbm": lambda **k: ps.generate_geometric_brownian(3, 4, **k), "cir": lambda **k: ps.generate_cir(3, 4, **k),
         "heston": lambda **k: ps.generate_heston(3, 4, **k).spot, "vasicek": lambda **k: ps.generate_vasicek(3, 4, **k), "merton": lambda **k: ps.generate_merton_jump(3, 4, **k),
@@ -122,7 +133,7 @@ result = {"got": [str(b) for b in bad][:12], "ref": []}
 def _replay_gen():
     r = real_exec(GEN_REPLAY, {}, timeout=600)
     ok = r.get('ok') and r['result']['got'] == []
-    return {'real': r, 'confirmed': not ok, 'note': 'replay: real generators for (n_paths, n_steps) in {(1,1),(3,2),(4,7)}, non-default initial states (tuples and bare scalars, incl. 0), float32/float64: shape, first column, finiteness, sign, dtype; the requested dtype (float16, bfloat16, float32, float64) under both global default dtypes'}
+    return {'real': r, 'confirmed': not ok, 'note': 'replay: real generators for (n_paths, n_steps) in {(1,1),(3,2),(4,7)}, non-default initial states (tuples and bare scalars, incl. 0), float32/float64: shape, first column, finiteness, sign, dtype; the requested dtype (float16, bfloat16, float32, float64) under both global default dtypes; time-only local volatility with several paths; horizons of 1100 steps'}
 
 
 LAW = '[law] '
